@@ -164,6 +164,9 @@ def run(out, prop, tier, seed, only_slices=None):
             if not v['failed'] and v['drift'] != 'ok':
                 out.add_drift('mibcopy %s differs from MibCopy.tla for %s: observed %s, model %s' % (
                     v['drift'], brief(sc, order), {n: c['id'] for n, c in obs['dest'].items()}, v['mdest']))
+    if not only_slices:
+        lres = tlc.run('MC_MibCopy', 'live.cfg', files={'live.cfg': CFG.format(fs='FileSets_q', ds='Dests_q') + 'SPECIFICATION Spec\nPROPERTY Termination\n'}, timeout=3000)
+        out.add_tlc(lres, 'MibCopy/liveness(Termination under WF)')
     out.assumptions += ['the visiting order is the order of the COPIED / NOT COPIED / FAILED lines of the script',
                         'a copy is identified by the "-- id N" comment on its first line',
                         "a file's revision is its first REVISION clause (SMIv2 lists the latest first); files listing revisions in ascending order are out of scope"]
